@@ -1,7 +1,9 @@
 """X26 (extra, not in MANIFEST.json) — iora::core::TokenBucket and RateLimiterMap: the lazily replenished bucket equals the eager
 one (exact verdicts, availableTokens, timeUntilAvailable for one caller), and with several callers on a shared map no key is
 granted more than burst + rate * length in any interval.  TokenBucket.tla model-checked (two constant sets + Dev_NoCap self-test);
-executions under the scheduler with virtual time validated against BucketTrace.tla."""
+RateLimiterMap.tla
+(tryConsume's three critical sections against removeKey) gives the program of observation O-26a; executions under the scheduler with
+virtual time validated against BucketTrace.tla."""
 import os, json
 import vf
 SPECDIR = os.path.join(vf.SPEC, "extra")
@@ -22,6 +24,18 @@ def run(ck):
     if d.violated != "Bound":
         raise vf.Infra("self-test: Dev_NoCap should violate Bound, got %r %r" % (d.violated, d.error))
     ck.note("self-test: Dev_NoCap = TRUE violates Bound (%s)" % d.summary())
+    # RateLimiterMap.tla: tryConsume's three critical sections against removeKey().  As the code is (RetryOnMiss = FALSE) the model
+    # admits a refusal without any grant - its counterexample is the "a=C1z;b=Rz" program below (observation O-26a); with the retry
+    # a repair would add, both invariants hold.
+    m = vf.run_tlc(os.path.join(SPECDIR, "RateLimiterMap.tla"), os.path.join(SPECDIR, "RateLimiterMap.cfg"), tag="X26map", workers=2, timeout=300)
+    if m.violated != "NoSpuriousRefusal":
+        raise vf.Infra("RateLimiterMap.tla (as the code is) should violate NoSpuriousRefusal, got %r %r" % (m.violated, m.error))
+    ck.note("RateLimiterMap.tla as the code is (RetryOnMiss = FALSE): NoSpuriousRefusal violated as expected = observation O-26a (%s)" % m.summary())
+    m2 = vf.run_tlc(os.path.join(SPECDIR, "RateLimiterMap.tla"), os.path.join(SPECDIR, "RateLimiterMap_retry.cfg"), tag="X26mapr", workers=2, coverage=True, timeout=300)
+    if m2.error or m2.violated:
+        raise vf.Infra("RateLimiterMap.tla with RetryOnMiss = TRUE: %r %r" % (m2.violated, m2.error))
+    ck.states += m2.distinct; ck.transitions += m2.generated
+    ck.note("RateLimiterMap.tla with RetryOnMiss = TRUE (3 callers, burst 2, 3 removes): %s" % m2.summary())
     lines = []
     for i in range(1200 if ck.tier == "thorough" else 300):
         rate = ck.rng.choice([1, 1, 2, 3]); burst = ck.rng.choice([1, 2, 3, 4])
